@@ -96,6 +96,11 @@ func vReadmeOps() []vOp {
 		{q: `mutation { saveHuman(name: "x") { name } savePhone(p: "1") { phone name } }`},
 		{q: `{ me { email badge { code } phone } }`},
 		{q: `{ getHumans { badge { code label } friends { email } } }`},
+		{q: `query($u: Boolean = true) { me { name(upper: $u) phone } }`, known: "default-var"},
+		{q: `query($s: Boolean!) { me { name phone @skip(if: $s) } }`, known: "directive-var", vars: func() map[string]interface{} { return map[string]interface{}{"s": false} }},
+		{q: `{ node(id: "h1") { id } }`, noNode: true, known: "node-without-fragment"},
+		{q: `{ __typename me { phone } }`},
+		{q: `query($c: Int = 4) { me { phone(cc: $c) } }`, vars: func() map[string]interface{} { return map[string]interface{}{"c": verifInt("var_c", 0, 9)} }},
 	}
 }
 
@@ -104,6 +109,9 @@ func vResolveLazy(w *vWorld, k int) {
 }
 
 var vK = 2
+
+// vProp is the property the current kernel runs for (known-finding ids are per property)
+var vProp = "C01"
 
 // vLookup is called by the evaluator for every raw value; it resolves lazy parts of the world
 func vLookup(w *vWorld, holder map[string]interface{}, key string, raw interface{}) interface{} {
@@ -121,6 +129,10 @@ func vLookup(w *vWorld, holder map[string]interface{}, key string, raw interface
 				v = vRef{"Human", "h2"}
 			}
 		}
+		holder[key] = v
+		return v
+	case vLazyPets:
+		v := vPickPets(l.name, vK)
 		holder[key] = v
 		return v
 	}
@@ -179,6 +191,7 @@ func vCheckOne(w *vWorld, cfg vConfig, op vOp, vars map[string]interface{}, sdls
 		data, _ := out["data"].(map[string]interface{})
 		verifAssert(data != nil, "data is present")
 		if data != nil {
+			vPrune(data)
 			vAssertSame("", data, exp)
 		}
 	}
@@ -188,17 +201,21 @@ func vCheckOne(w *vWorld, cfg vConfig, op vOp, vars map[string]interface{}, sdls
 func VerifPipeline() {
 	vK = verifParam("k", 2)
 	ops := vReadmeOps()
+	if only := verifParam("onlyop", -1); only >= 0 {
+		ops = ops[only : only+1]
+	}
 	nops := verifParam("ops", len(ops))
 	if nops > len(ops) {
 		nops = len(ops)
 	}
 	op := ops[verifChoice("op", nops)]
+	verifLog("op: " + op.q)
 	var vars map[string]interface{}
 	if op.vars != nil {
 		vars = op.vars()
 	}
 	if op.known != "" {
-		verifKnown(op.known, true)
+		verifKnown(vProp+"-"+op.known, true)
 	}
 	sdls := []string{vSA, vSB}
 	if verifParam("three", 1) == 1 {
@@ -210,6 +227,95 @@ func VerifPipeline() {
 			continue
 		}
 		vCheckOne(w, cfg, op, vars, sdls)
+	}
+	verifReach("pipeline completed")
+}
+
+// ---- scenario 2: interface and union spread over two services ----
+
+const vSC1 = `
+interface Node { id: ID! }
+interface Pet { id: ID! name: String! }
+type Cat implements Node & Pet { id: ID! name: String! lives: Int }
+type Dog implements Node & Pet { id: ID! name: String! bark: String }
+union Thing = Cat | Dog
+type Query { node(id: ID!): Node pets: [Pet!]! things: [Thing!]! ping: String }
+type Mutation { ping: String }
+`
+const vSC2 = `
+interface Node { id: ID! }
+type Cat implements Node { id: ID! toy: String }
+type Dog implements Node { id: ID! bone: String }
+type Query { node(id: ID!): Node pong: String }
+`
+
+func vPickPets(name string, k int) []vRef {
+	n := verifChoice(name+".len", k+1)
+	l := make([]vRef, n)
+	for i := range l {
+		if verifChoice(name+"."+verifItoa(i), 2) == 0 {
+			l[i] = vRef{"Cat", "c1"}
+		} else {
+			l[i] = vRef{"Dog", "d1"}
+		}
+	}
+	return l
+}
+
+type vLazyPets struct{ name string }
+
+func vAbstractWorld() *vWorld {
+	w := &vWorld{ents: map[string]vEnt{}, roots: map[string]interface{}{}}
+	w.ents["c1"] = vEnt{"__typename": "Cat", "id": "c1", "lives": verifInt("c1_lives", 0, 9)}
+	w.ents["d1"] = vEnt{"__typename": "Dog", "id": "d1"}
+	w.roots["Query.pets"] = vLazyPets{"pets"}
+	w.roots["Query.things"] = vLazyPets{"things"}
+	return w
+}
+
+func vAbstractHint(id interface{}) (string, bool) {
+	s, _ := id.(string)
+	switch {
+	case strings.HasPrefix(s, "c"):
+		return "Cat", true
+	case strings.HasPrefix(s, "d"):
+		return "Dog", true
+	}
+	return "", false
+}
+
+func vAbstractOps() []vOp {
+	return []vOp{
+		{q: `{ pets { name } }`},
+		{q: `{ pets { ... on Cat { toy } ... on Dog { bone bark } } }`},
+		{q: `{ things { ... on Cat { toy name lives } ... on Dog { bone } } }`},
+		{q: `{ ping pong }`},
+		{q: `{ things { ... on Cat { id } } }`},
+		{q: `mutation { ping }`},
+		{q: `{ pets { name ... on Cat { toy lives } } }`, known: "abs-interface-field-plus-fragment"},
+		{q: `{ pets { id ... on Cat { toy } } }`, known: "abs-id-next-to-fragment"},
+		{q: `{ things { __typename ... on Cat { toy } } }`, known: "abs-typename-next-to-union-fragment"},
+		{q: `{ pets { ... on Pet { name } } }`, known: "abs-fragment-on-interface"},
+	}
+}
+
+func VerifPipelineAbstract() {
+	vK = verifParam("k", 2)
+	ops := vAbstractOps()
+	if only := verifParam("onlyop", -1); only >= 0 {
+		ops = ops[only : only+1]
+	}
+	op := ops[verifChoice("op", len(ops))]
+	verifLog("op: " + op.q)
+	if op.known != "" {
+		verifKnown(vProp+"-"+op.known, true)
+	}
+	w := vAbstractWorld()
+	for _, cfg := range []vConfig{
+		{name: "default", opts: func() []GatewayOption { return nil }},
+		{name: "hint", opts: func() []GatewayOption { return []GatewayOption{WithGetParentTypeFromIDFunc(vAbstractHint)} }},
+	} {
+		vCheckOne(w, cfg, op, nil, []string{vSC1, vSC2})
 	}
 	verifReach("pipeline completed")
 }
